@@ -61,6 +61,18 @@ func c09Params(tier string) []*kvops.Params {
 		}
 		out = append(out, p)
 	}
+	// the DMap's default TTL, given for all DMaps and given for this DMap only (config.DMaps.Custom)
+	for _, custom := range []string{"", "d"} {
+		name := "N=2 R=1 entry=EN defaultTTL=true"
+		if custom != "" {
+			name += " per-DMap-config"
+		}
+		out = append(out, &kvops.Params{
+			Name:  name,
+			Opts:  simcluster.Opts{N: 2, Replicas: 1, WriteQ: 1, ReadQ: 1, Partitions: 7, TTL: 2500 * 1e6, Custom: custom},
+			Entry: "EN", DMap: "d", Keys: []string{"k"}, Alpha: alpha, Depth: depth - 1, Visible: true, DefaultTTL: 2500 * 1e6,
+		})
+	}
 	// non-initial start states: the key already stored with an expiry (and touched by a counter), a
 	// lock held, an expiry re-set - the same depth reaches two steps further into these histories
 	for _, pre := range [][]clustermc.Ev{{ev("put", 0, 0, "PX"), ev("incr", 0, 1, "")}, {ev("lock", 0, 1, ""), ev("tick", 0, 1, "")}, {ev("put", 0, 0, ""), ev("expire", 0, 0, "")}} {
